@@ -62,6 +62,18 @@ theorem c05_poll_end_to_end {σ : Type} (H : Nat → LEntry) (hH : IdxOK H) (pay
   exact ⟨this, by rw [hinv.1, this]⟩
 
 
+/-- the same for the two readers the server can be configured with: the uncached one and the
+cached one with ANY cache satisfying the cache invariant (which every cache reachable from an empty
+one does, C06) — so the hypothesis "exact query function" of the poll theorem is not vacuous -/
+theorem c05_poll_with_cached_reader (H : Nat → LEntry) (hH : IdxOK H) (payload : Nat → Cmd) (l : Log)
+    (hl : EntriesSpec H l) (a stale mx : Nat) (hal : a ≤ l.last) (c : Cache) (hc : CacheInv H a c)
+    (f : Follower) (hf : Inv (leaderLog payload a) f) (chunks : List (List Cmd))
+    (hcut : chunks.flatten =
+      (commandsOf (replicate (fun c F L => cachedQuery l c F L mx) c (f.li + 1) a stale).1).map (fun e => payload e.index)) :
+    Inv (leaderLog payload a) (proposeAll f chunks) :=
+  (c05_poll_end_to_end H hH payload a stale _ (CacheInv H a) (C06.c06_cached_qexact H hH l hl a mx hal) c hc f hf
+    chunks hcut).1
+
 /-- **snapshot recovery, end to end** (C05 ∘ C07): the leader's store `src` holds the leader's
 content at index `s` (C01: its user map is the specification's after `s` entries) and its applied
 index is `s`; the follower loads the leader's snapshot stream — whatever the in-memory-log threshold
